@@ -56,6 +56,46 @@ MISSED_FIRST = {
  "C18-m7": "missed while probe points changed between calls; caught after the same-argument-first-call probe pattern",
  "C20-m7": "missed while vertices were always listed from the top-right corner clockwise; caught after vertex-listing classes (which exposed the defect repaired in 45772da)",
  "C20-m9": "missed while grids had at most 196 cells; caught after grids with more than 1024 cells",
+ "C06-m10": "missed while install files held one block per family; caught after several keys per call (multi-block files) with the cross-key order relation",
+ "C06-m11": "missed while overwrites changed the whole entry; caught after one-component overwrites (only ne / only te / one element / one ulp)",
+ "C06-m12": "missed while transition levels were canonical integers; caught after hostile level spellings ('03', ' 3', '+3', 2.5, ...)",
+ "C11-m12": "missed while the normal-equation tolerance scaled with the returned |x|; caught after the objective-value check against an independent truncated-SVD reference and the rank-deficiency class",
+ "C12-m10": "missed while LCFS polygons were listed from a random angle; caught after listings whose first and last vertex share a coordinate, with seam points",
+ "C12-m12": "missed while every mapping used a fresh container; caught after mapping call sequences with in-place refills",
+ "C13-m11": "missed while wrappers wrapped plain leaves; caught after nested wrapper chains (own class and others, depth 2-3)",
+ "C14-m10": "missed while the allowance still contained the absolute-coordinate term of the pre-fix model; caught after the translation-invariant allowance and the far/fine class for all dimensions",
+ "C15-m10": "missed while observe() was judged on groups built by constructor / add only; caught after per-observer observation counters inside histories",
+ "C15-m12": "missed while assigned values were unrelated to current ones; caught after coincidence assignments (values equal to current values of the same / sibling attributes)",
+ "C16-m11": "missed while each calibrate() result was judged right after its call; caught after the returned-array history monitor",
+ "C17-m13": "missed for the same reason at grid level; caught after kept-result histories of emissivities_from_function",
+ "C19-m11": "missed while an isotope was judged against its attached element only; caught after the isotope's own symbol / name are read against the periodic table",
+ "C20-m10": "missed while voxels were numbered down the columns only; caught after row-wise numbering",
+ "C20-m11": "missed while the generator's dict was passed on unchanged; caught after operator dicts in other key orders",
+ "C04-m10": "a stale-state change (cached stopping data survive a species replacement): C04 builds a fresh beam per case; caught by C01, whose property it breaks",
+ "C04-m12": "a stale-state change (attenuator keeps the old atomic data): caught by C01, whose property it breaks",
+ "C03-m13": "missed while the default Gaunt factor was its own oracle; caught after the independent Born / classical / table reference",
+ "C03-m15": "missed while each model saw one spectral window (C01 caught it after observations through several windows); caught by C03 after the several-windows sequence step",
+ "C05-m13": "missed while lines were never re-assigned (C01 caught it after same-ion line changes); caught by C05 after same-instance histories",
+ "C05-m14": "missed while consecutive evaluation points were unrelated; caught after point sequences sharing two coordinates bit for bit",
+ "C05-m15": "missed by C05 while compositions were assigned once (C01 caught it); caught by C05 after same-instance histories",
+ "C05-m6": "first caught by C01 only; caught by C05 itself after same-instance histories (species replaced)",
+ "C06-m14": "missed while update dictionaries had no empty branches; caught after empty branches at every nesting level and position",
+ "C06-m15": "missed while C06 installed through install_adfXX only; caught after install_files with upper / mixed-case keys inside the histories",
+ "C07-m13": "missed while stored tables depended on every axis; caught after degenerate tables (independent of one axis, constant, rank-1) with the full range matrix",
+ "C08-m13": "missed while resolved ADF11 files had one block per charge; caught after unequal metastable counts (more blocks than charge states)",
+ "C08-m15": "missed while ADF15 index rows were contiguous; caught after grouped indices separated by blank comment lines / rulers / free text",
+ "C09-m14": "missed while container-returning helpers were called once per process state; caught after container call sequences over several elements",
+ "C09-m15": "missed while free variables were ascending; caught after descending / unsorted / repeated coordinates",
+ "C10-m17": "missed while observers had unit sensitivity and kind was lower case; caught after non-unit-sensitivity observers with every kind spelling",
+ "C12-m13": "missed while psi grids were uniform; caught after non-uniform rectilinear grids with bounds for the local spacing",
+ "C12-m15": "missed while the limiter always enclosed the LCFS generously; caught after limiter polygons in every relation to the LCFS",
+ "C13-m15": "missed while leaves returned a new vector per call; caught after stored-object leaves with evaluation sequences",
+ "C14-m14": "missed while function amplitudes were 1e-2..1e2; caught after function-magnitude classes with variation-relative judgements and scale equivariance",
+ "C16-m14": "missed while containers were assigned as new objects; caught after 'edit in place, assign the same object again' history steps",
+ "C16-m15": "missed while diffraction angles were acute; caught after the whole legal Czerny-Turner domain (obtuse angles)",
+ "C17-m15": "missed while grids had no scene placement; caught after placement classes (parents, translations, rotations, set_active sequences)",
+ "C17-m16": "missed while cells came in lists / arrays; caught after one-shot iterables (generators, map, iterators)",
+ "C19-m13": "missed while copies were made in the same process; caught after copies pickled by another interpreter with a different hash seed",
  "C18-m3": "first missed by C18 (its histories act on profile / spectrum objects, not on re-attaching them to the Laser node); caught by C01 after same-object re-assignment mutators and the laser-geometry observable were added, and by C18 itself after the placement monitor",
 }
 rows = []
